@@ -176,18 +176,51 @@ let go_sort (lt : 'a -> 'a -> bool) (arr : 'a array) : unit =
 
 let go_sort_list lt l = let a = Array.of_list l in go_sort lt a; Array.to_list a
 
+(* The extracted model (and Coq's merge sort) recurse along the lists: the large cases (10^5 .. 10^6 changes) need
+   more than the default 8 MB of stack.  The driver restarts itself once under a larger stack limit. *)
+let () =
+  if (try Sys.getenv "C13_DRIVER_STACK" with Not_found -> "") = "" then begin
+    Unix.putenv "C13_DRIVER_STACK" "1";
+    (try Unix.execv "/bin/sh"
+           [| "/bin/sh"; "-c"; "ulimit -s 16000000 2>/dev/null || ulimit -s unlimited 2>/dev/null; exec \"$0\""; Sys.executable_name |]
+     with _ -> ())
+  end
+
 (* ---------- helpers ---------- *)
+(* the tree-entry mode is no part of the model's entry record: the driver packs it into the (opaque) path
+   number, e_name = 8 * path + mode, for the fine correspondence (so the model carries it along untouched and
+   entry_eqb compares it), and strips it for the property oracles, which are about paths and content hashes *)
+let mode_names = [| "100644"; "100755"; "120000"; "100664"; "160000"; "?"; "?"; "?" |]
 let show_side = function
   | None -> "-"
-  | Some e -> Printf.sprintf "%d:%s" (int_of_n e.e_name)
+  | Some e -> Printf.sprintf "%d/%s:%s" (int_of_n e.e_name / 8) mode_names.(int_of_n e.e_name mod 8)
                 (String.concat "." (List.map (fun b -> string_of_int (int_of_n b)) e.e_hash))
+let strip_entry e = { e with e_name = n_of_int (int_of_n e.e_name / 8) }
+let strip_side = function None -> None | Some e -> Some (strip_entry e)
+let strip_changes l = List.map (fun (f, t) -> (strip_side f, strip_side t)) l
 let show_change (f, t) = "(" ^ show_side f ^ " " ^ show_side t ^ ")"
-let show_changes l = String.concat " " (List.map show_change l)
+let show_changes l =
+  let n = List.length l in
+  if n <= 40 then String.concat " " (List.map show_change l)
+  else String.concat " " (List.map show_change (List.filteri (fun i _ -> i < 12) l)) ^ Printf.sprintf " ... (%d changes)" n
 let rec take n l = if n <= 0 then [] else match l with [] -> [] | x :: r -> x :: take (n - 1) r
 let hkey (h : n list) : string = String.concat "," (List.map (fun b -> string_of_int (int_of_n b)) h)
 
+(* development aid: C13_DRIVER_TIMING=1 prints the time spent in the phases of every large case on stderr *)
+let timing = (try Sys.getenv "C13_DRIVER_TIMING" with Not_found -> "") <> ""
+let last_tick = ref (Unix.gettimeofday ())
+let tick what =
+  if timing then begin
+    let t = Unix.gettimeofday () in
+    Printf.eprintf "  %-28s %.2fs\n%!" what (t -. !last_tick); last_tick := t
+  end
+
+(* above this many changes the quadratic oracles are replaced by the fast ones *)
+let large = 4000
+
 let () =
   iter_cases (fun id c ->
+    tick "parse";
     let thr = z_of_int (int_of_sx (List.hd (args (field "thr" c)))) in
     let timeout = float_of_string (atom (List.hd (args (field "timeout" c)))) in
     let kind = atom (List.hd (args (field "kind" c))) in
@@ -199,14 +232,18 @@ let () =
       let h = List.map (fun x -> n_of_int (int_of_sx x)) (list_of_sx (List.hd (list_of_sx b))) in
       if not (Hashtbl.mem blob_of_hash (hkey h)) then Hashtbl.replace blob_of_hash (hkey h) i;
       h) (args (field "blobs" c))) in
-    let mk name b = { e_name = n_of_int name; e_hash = blobs.(b); e_size = z_of_int sizes.(b) } in
+    let mk name b mode = { e_name = n_of_int (8 * name + mode); e_hash = blobs.(b); e_size = z_of_int sizes.(b) } in
     let inp = List.map (fun ch ->
-      let a i = int_of_sx (List.nth (args ch) i) in
+      let av = Array.of_list (args ch) in
+      let a i = int_of_sx av.(i) in
+      let m i = if i < Array.length av then int_of_sx av.(i) else 0 in
       match tag ch with
-      | "a" -> (None, Some (mk (a 0) (a 1)))
-      | "d" -> (Some (mk (a 0) (a 1)), None)
-      | "m" -> (Some (mk (a 0) (a 1)), Some (mk (a 0) (a 2)))
+      | "a" -> (None, Some (mk (a 0) (a 1) (m 2)))
+      | "d" -> (Some (mk (a 0) (a 1) (m 2)), None)
+      | "m" -> (Some (mk (a 0) (a 1) (m 3)), Some (mk (a 0) (a 2) (m 4)))
       | _ -> (None, None)) (args (field "changes" c)) in
+    let n_changes = List.length inp in
+    tick "input";
     (* ----- oracle tables ----- *)
     let close_tab : (int * int, bool * bool) Hashtbl.t = Hashtbl.create 64 in
     List.iter (fun p -> match list_of_sx p with
@@ -227,7 +264,7 @@ let () =
     let lookup_close d a = try Hashtbl.find close_tab (bidx d, bidx a)
       with Not_found -> failwith (Printf.sprintf "the model asks blobsAreClose for a pair the implementation's sizesAreClose rejects (sizes %d %d)"
                                     (int_of_z d.e_size) (int_of_z a.e_size)) in
-    let lookup_dist d a = try Hashtbl.find dist_tab (int_of_n d.e_name, int_of_n a.e_name)
+    let lookup_dist d a = try Hashtbl.find dist_tab (int_of_n d.e_name / 8, int_of_n a.e_name / 8)
       with Not_found -> failwith (Printf.sprintf "the model takes a pair as candidates that the implementation's sizesAreClose rejects (sizes %d %d)"
                                     (int_of_z d.e_size) (int_of_z a.e_size)) in
     let close_a me cand = fst (lookup_close me cand) in        (* matchA: blobsAreClose(deleted, added) *)
@@ -238,7 +275,14 @@ let () =
       List.map fst (Array.to_list arr) in
     let order_a = order (fun me x -> fst (lookup_dist me x)) in
     let order_b = order (fun me x -> snd (lookup_dist x me)) in
-    let sort_hash l = go_sort_list (fun x y -> less x.e_hash y.e_hash) l in
+    (* sort.Sort by hash; the model sorts exactly the additions and the deletions of the input, which the
+       cross-check below sorts too: remember these two results *)
+    let sorted_memo : (entry list * entry list) list ref = ref [] in
+    let sort_hash l =
+      match List.find_opt (fun (k, _) -> k == l || k = l) !sorted_memo with
+      | Some (_, r) -> r
+      | None -> let r = go_sort_list (fun x y -> less x.e_hash y.e_hash) l in
+                sorted_memo := (l, r) :: !sorted_memo; r in
     let sort_size l = go_sort_list (fun x y -> int_of_z x.e_size < int_of_z y.e_size) l in
     (* ----- cross-checks of the sort port against the real sort.Sort / sortRenameCandidates ----- *)
     (match args (field "sorts" obs) with
@@ -248,17 +292,31 @@ let () =
            let real = List.map (fun i -> arr.(i)) (ints_of_sx p) in
            (* compare positions, not values: tag every element with its index *)
            let tagged = List.mapi (fun i e -> (i, e)) l in
-           let mine = List.map fst (go_sort_list (fun (_, x) (_, y) -> less x.e_hash y.e_hash) tagged) in
+           let sorted = go_sort_list (fun (_, x) (_, y) -> less x.e_hash y.e_hash) tagged in
+           let mine = List.map fst sorted in
            ignore real;
+           sorted_memo := (l, List.map snd sorted) :: !sorted_memo;
            if mine <> ints_of_sx p then mismatch id ("sort.Sort of the " ^ what ^ " by hash: the driver's pdqsort port gives another permutation than Go") in
          chk "deletions" (dels inp) pd; chk "additions" (adds inp) pa
      | _ -> failwith "sorts");
+    tick "sort cross-check";
     (match args (field "csort" obs) with
      | [ds; res] ->
          let arr = Array.of_list (List.mapi (fun i d -> (i, d)) (ints_of_sx ds)) in
          go_sort (fun (_, d1) (_, d2) -> d1 < d2) arr;
          if List.map fst (Array.to_list arr) <> ints_of_sx res then
            mismatch id "sortRenameCandidates: the driver's sort.Slice port gives another order than Go"
+     | _ -> ());
+    (* sizesAreClose on the recorded size pairs (any sizes) *)
+    (match field_opt "szq" c, field_opt "szc" obs with
+     | Some q, Some r ->
+         List.iter2 (fun q r -> match list_of_sx q with
+           | [x; y] ->
+               let x = int_of_sx x and y = int_of_sx y in
+               count "sizes_close_compared";
+               if sizes_close (effective_threshold thr) (z_of_int x) (z_of_int y) <> bool_of_sx r then
+                 mismatch id (Printf.sprintf "sizesAreClose(%d,%d): implementation %b, model %b" x y (bool_of_sx r) (not (bool_of_sx r)))
+           | _ -> failwith "szq") (args q) (args r)
      | _ -> ());
     (* ----- the implementation's result ----- *)
     let res = field "res" obs in
@@ -267,12 +325,15 @@ let () =
     let side s = match s with
       | A "-" -> None
       | L [n; b] -> let n = int_of_sx n and b = int_of_sx b in
-          if n < 0 || b < 0 then Some unknown else Some (mk n b)
+          if n < 0 || b < 0 then Some unknown else Some (mk n b 0)
+      | L [n; b; m] -> let n = int_of_sx n and b = int_of_sx b and m = int_of_sx m in
+          if n < 0 || b < 0 || m < 0 || m > 7 then Some unknown else Some (mk n b m)
       | _ -> failwith "side" in
     let out = if rkind = "ok" then
         List.map (fun p -> match list_of_sx p with [f; t] -> (side f, side t) | _ -> failwith "out") (list_of_sx (List.nth (args res) 1))
       else [] in
     count ("res_" ^ rkind);
+    tick "output";
     if malformed inp then begin
       count "malformed";
       if rkind <> "err" then mismatch id ("malformed change set: the model returns an error, the implementation " ^ rkind)
@@ -281,22 +342,71 @@ let () =
       if rkind = "panic" then propfail id "Consume panicked on a well-formed change set"
       else if rkind = "err" then propfail id "Consume returned an error on a well-formed change set"
       else begin
-        if not (repairing_b inp out) then
-          propfail id ("the output is not a re-pairing of the input: " ^ show_changes out);
-        if wf_hashes_b inp then begin
-          count "exact_checked";
-          if not (exact_b inp out) then
-            propfail id ("identical content missed or over-reported: the number of exact renames differs from min(#added,#deleted) for some hash: " ^ show_changes out)
+        let inp_p = strip_changes inp and out_p = strip_changes out in
+        if n_changes <= large then begin
+          if not (repairing_b inp_p out_p) then
+            propfail id ("the output is not a re-pairing of the input: " ^ show_changes out);
+          if wf_hashes_b inp_p then begin
+            count "exact_checked";
+            if not (exact_b inp_p out_p) then
+              propfail id ("identical content missed or over-reported: the number of exact renames differs from min(#added,#deleted) for some hash: " ^ show_changes out)
+          end
+        end else begin
+          (* large case: the fast oracles of RenamesFast.v (C13_repairing_fast_oracle_sound, C13_exact_by_buckets_sound) *)
+          count "large_cases";
+          count (Printf.sprintf "large_1e%d" (String.length (string_of_int n_changes) - 1));
+          tick "  stripped";
+          if not (repairing_fast_b inp_p out_p) then begin
+            (* the fast oracle is sound, not complete (it wants the modifications first): the slow one decides, where
+               it is affordable *)
+            if n_changes <= 150000 && repairing_b inp_p out_p then count "fast_oracle_rejects_slow_accepts"
+            else propfail id ("the output is not a re-pairing of the input (" ^ string_of_int n_changes ^ " changes): " ^ show_changes out)
+          end;
+          tick "  repairing_fast_b";
+          if wf_hashes_b inp_p then begin
+            count "exact_checked";
+            (* per hash h: exact_at on the sub-lists of the changes that carry h on some side, in order
+               (= filter (touches h)) *)
+            let buckets : (string, n list * (entry option * entry option) list ref * (entry option * entry option) list ref) Hashtbl.t =
+              Hashtbl.create 1024 in
+            let keys = ref [] in
+            let bucket h =
+              let k = hkey h in
+              try Hashtbl.find buckets k with Not_found ->
+                let b = (h, ref [], ref []) in Hashtbl.replace buckets k b; keys := k :: !keys; b in
+            let put sel ((f, t) as ch) =
+              let hf = match f with Some e -> Some e.e_hash | None -> None
+              and ht = match t with Some e -> Some e.e_hash | None -> None in
+              (match hf with Some h -> let r = sel (bucket h) in r := ch :: !r | None -> ());
+              (match ht with Some h when hf <> ht -> let r = sel (bucket h) in r := ch :: !r | _ -> ()) in
+            List.iter (put (fun (_, i, _) -> i)) inp_p;
+            List.iter (put (fun (_, _, o) -> o)) out_p;
+            let bad = ref 0 and first_bad = ref "" in
+            List.iter (fun k ->
+              let (h, i, o) = Hashtbl.find buckets k in
+              if not (exact_at (List.rev !i) (List.rev !o) h) then begin
+                incr bad;
+                if !first_bad = "" then
+                  first_bad := Printf.sprintf "hash %s: %d change(s) in, %d out carry it; out: %s" (String.concat "." (String.split_on_char ',' k))
+                                 (List.length !i) (List.length !o) (show_changes (List.rev !o))
+              end) (List.rev !keys);
+            if !bad > 0 then
+              propfail id (Printf.sprintf "identical content missed or over-reported: the number of exact renames differs from min(#added,#deleted) for %d hash(es) (%d changes); %s"
+                             !bad n_changes !first_bad)
+          end
         end
       end;
       (* ----- fine correspondence ----- *)
+      tick "property oracles";
       if rkind = "ok" then begin
         let (((mds, exact), sa), sd) = stage1 sort_hash inp in
+        tick "  model stage 1";
         let prefix = mds @ List.map c_ren exact in
         if List.length exact > 0 then count "with_exact_renames";
         if take (List.length prefix) out <> prefix then
           mismatch id ("stage 1 differs: model " ^ show_changes prefix ^ " implementation " ^ show_changes (take (List.length prefix) out))
         else begin
+          tick "  stage 1 compared";
           let t = effective_threshold thr in
           let maxc = cap_of sa sd in
           if int_of_z maxc = 1 then count "cap_reduced_to_1";
@@ -309,7 +419,9 @@ let () =
             | Some r -> Some (stage3 mds exact r sa sd) | None -> None in
           let run_b cut = match match_b order_b close_b t maxc (nat_of_int cut) ab db with
             | Some r -> Some (stage3 mds exact r sa sd) | None -> None in
+          tick "  sizes sorted";
           let full_a = run_a nd and full_b = run_b na in
+          tick "  model stage 2";
           if full_a = None || full_b = None then mismatch id "the model panics (candidate index out of range)";
           (* the output of a run cut after k iterations depends only on the number of matches found so far
              (unmatched elements stay in their original order), and that number grows with k: search the
@@ -341,8 +453,10 @@ let () =
            | _, _ -> count "explained_by_both");
           if full_a <> full_b then count "matchA_and_matchB_differ";
           if short && Some out <> full_a && Some out <> full_b && (expl_a <> [] || expl_b <> []) then count "timeout_cut_observed";
-          (match full_a with Some o when List.exists (fun (f, t) -> f <> None && t <> None) (List.filteri (fun i _ -> i >= List.length prefix) o) -> count "with_similarity_renames" | _ -> ())
+          (match full_a with Some o when List.exists (fun (f, t) -> f <> None && t <> None) (List.filteri (fun i _ -> i >= npre) o) -> count "with_similarity_renames" | _ -> ())
         end
       end
     end;
-    ignore kind)
+    tick "correspondence";
+    ignore kind);
+  tick "end"
